@@ -130,14 +130,17 @@ def _all_strings(spec):
     for e in spec['elems']:
         yield e['type']
         yield e['name']
-        for name, typ, _, vals in e['attrs']:
-            yield name
-            if typ == 'STRING':
-                yield from vals
+        for op in e.get('ops', ()):
+            if op[0] == 'setname':
+                yield op[1]
+        for a in U.payloads(e):
+            yield a[0]
+            if a[1] == 'STRING':
+                yield from a[3]
 
 
 def _has_time(spec) -> bool:
-    return any(a[1] == 'TIME' for e in spec['elems'] for a in e['attrs'])
+    return any(a[1] == 'TIME' for e in spec['elems'] for a in U.payloads(e))
 
 
 # ------------------------------------------------------------------------------------------------ corpus
@@ -182,6 +185,22 @@ CORPUS: list[tuple[str, dict, list[dict]]] = [
                           {'type': 'L', 'name': 'leaf', 'uuid': _U[3], 'attrs': [['selfarr', 'ELEMENT', True, [3, None]]]}]},
      [{'fmt': 'binary', 'version': v, 'unicode': 'ascii'} for v in (1, 3, 5)] +
      [{'fmt': 'kv2', 'flat': f, 'cull_uuid': c, 'unicode': 'ascii'} for f in (False, True) for c in (False, True)]),
+    # API histories: the 'name' member removed through the public mapping API, other attributes kept or added afterwards
+    ('history-cleared-then-filled', {'elems': [{'type': 'T', 'name': 'n', 'uuid': _U[0], 'attrs': [['old', 'INTEGER', False, [1]]],
+                                                'ops': [['clear'], ['set', 'a', 'INTEGER', False, [5]], ['set', 'kid', 'ELEMENT', False, [1]]]},
+                                               {'type': 'C', 'name': 'c', 'uuid': _U[1], 'attrs': [['q', 'STRING', False, ['s']]]}]},
+     [{'fmt': 'binary', 'version': v, 'unicode': 'ascii'} for v in (1, 2, 4, 5)] +
+     [{'fmt': 'kv2', 'flat': f, 'cull_uuid': False, 'unicode': 'ascii'} for f in (False, True)]),
+    ('history-name-deleted', {'elems': [{'type': 'T', 'name': 'root', 'uuid': _U[0], 'attrs': [['kid', 'ELEMENT', True, [1, 1]]]},
+                                        {'type': 'C', 'name': 'gone', 'uuid': _U[1], 'attrs': [['x', 'FLOAT', False, [0.5]], ['y', 'STRING', True, ['p', 'q']]],
+                                         'ops': [['del', 'NAME']]}]},
+     [{'fmt': 'binary', 'version': v, 'unicode': 'ascii'} for v in (1, 3, 5)] + [{'fmt': 'kv2', 'flat': False, 'cull_uuid': True, 'unicode': 'ascii'}]),
+    ('history-name-popped-and-readded', {'elems': [{'type': 'T', 'name': 'first', 'uuid': _U[0], 'attrs': [['a', 'INTEGER', False, [1]], ['b', 'BOOL', False, [True]]],
+                                                    'ops': [['pop', 'Name'], ['pop', 'a'], ['set', 'NAME', 'STRING', False, ['again']], ['set', 'c', 'INTEGER', False, [3]]]}]},
+     [{'fmt': 'binary', 'version': v, 'unicode': 'ascii'} for v in (1, 4, 5)] + [{'fmt': 'kv2', 'flat': True, 'cull_uuid': False, 'unicode': 'ascii'}]),
+    ('history-popitem-to-nothing-then-setter', {'elems': [{'type': 'T', 'name': 'n', 'uuid': _U[0], 'attrs': [['a', 'INTEGER', False, [1]]],
+                                                           'ops': [['popitem'], ['popitem'], ['set', 'z', 'COLOR', False, [[1, 2, 3, 4]]], ['setname', 'late']]}]},
+     [{'fmt': 'binary', 'version': v, 'unicode': 'ascii'} for v in (2, 5)] + [{'fmt': 'kv2', 'flat': False, 'cull_uuid': False, 'unicode': 'ascii'}]),
     ('all-empty-arrays', _one([[f'e{i}', t, True, []] for i, t in enumerate(U.TYPES)]),
      [{'fmt': 'binary', 'version': 3, 'unicode': 'ascii'}, {'fmt': 'binary', 'version': 5, 'unicode': 'ascii'},
       {'fmt': 'kv2', 'flat': False, 'cull_uuid': False, 'unicode': 'ascii'}]),
@@ -1222,7 +1241,7 @@ def search_graphs(ck: Ck) -> None:
         else:
             mode = rand_mode(ck.rng)
             spec = U.gen_spec(ck.rng, mode['unicode'] != 'ascii',
-                              allow_time=not (mode['fmt'] == 'binary' and mode['version'] < 3))
+                              allow_time=not (mode['fmt'] == 'binary' and mode['version'] < 3), histories=0.12)
             if ck.rng.random() < 0.03:      # element types that collide with KV2 keywords
                 spec['elems'][-1]['type'] = ck.rng.choice(U.KV2_AMBIGUOUS_TYPES)
             if ck.rng.random() < 0.02:      # a differently-cased spelling of the reserved name attribute
